@@ -3101,14 +3101,16 @@ impl KotoVm {
 
         // Copy any extra arguments into the generator vm,
         // they'll get extracted into a tuple in apply_variadic_arguments
-        generator_vm.registers.extend(
-            self.register_slice(
-                call_arg_base + expected_arg_count,
-                call_info.arg_count.saturating_sub(expected_arg_count),
-            )
-            .iter()
-            .cloned(),
-        );
+        if call_info.arg_count > expected_arg_count {
+            generator_vm.registers.extend(
+                self.register_slice(
+                    call_arg_base + expected_arg_count,
+                    call_info.arg_count - expected_arg_count,
+                )
+                .iter()
+                .cloned(),
+            );
+        }
 
         // Move variadic arguments into a tuple
         apply_variadic_arguments(
@@ -3747,8 +3749,11 @@ impl KotoVm {
     }
 
     fn new_frame_base(&self) -> Result<u8> {
-        u8::try_from(self.registers.len() - self.register_base)
-            .map_err(|_| "Overflow of the current frame's register stack".into())
+        // The frame base needs to be followed by an addressable register for the first call arg
+        match u8::try_from(self.registers.len() - self.register_base) {
+            Ok(frame_base) if frame_base < u8::MAX => Ok(frame_base),
+            _ => runtime_error!("Overflow of the current frame's register stack"),
+        }
     }
 
     fn register_index(&self, register: u8) -> usize {
